@@ -21,43 +21,8 @@ VERIF = os.path.dirname(os.path.dirname(os.path.abspath(__file__)))
 REPO = os.environ.get("UTAP_REPO", "/repo")
 
 
-def claimed():
-    with open(os.path.join(VERIF, "MANIFEST.json")) as f:
-        return [c["property_id"] for c in json.load(f)["checks"]]
-
-
-def run_seed(sid, checks, tier="quick"):
-    sd = os.path.join(VERIF, "seeded", sid)
-    with open(os.path.join(sd, "meta.json")) as f:
-        meta = json.load(f)
-    tmp = tempfile.mkdtemp(prefix="utap-seed-")
-    res = {"seed": sid, "property": meta["property"], "runs": {}, "expect": meta.get("expect", "violation")}
-    try:
-        for d in ("src", "include"):
-            shutil.copytree(os.path.join(REPO, d), os.path.join(tmp, d))
-        p = subprocess.run(["git", "apply", "--whitespace=nowarn", os.path.join(sd, "patch.diff")], cwd=tmp,
-                           stdout=subprocess.PIPE, stderr=subprocess.STDOUT, text=True)
-        if p.returncode != 0:       # older patches (reverse of early fix commits): retry with less context
-            p = subprocess.run(["git", "apply", "-C1", "--whitespace=nowarn", os.path.join(sd, "patch.diff")],
-                               cwd=tmp, stdout=subprocess.PIPE, stderr=subprocess.STDOUT, text=True)
-        if p.returncode != 0:
-            res["skipped"] = "patch no longer applies: " + p.stdout.strip()[:300]
-            return res
-        env = dict(os.environ, UTAP_REPO=tmp, VERIF_OUT=os.path.join(tmp, "out"))
-        for c in checks:
-            q = subprocess.run([sys.executable, "-m", "verif.cli", c, "--tier", tier], cwd=VERIF, env=env,
-                               stdout=subprocess.PIPE, stderr=subprocess.STDOUT, text=True)
-            keys = []
-            ev = os.path.join(tmp, "out", "evidence", c + ".json")
-            if os.path.exists(ev):
-                with open(ev) as f:
-                    keys = json.load(f)["coverage"].get("unlisted_violations", [])
-            res["runs"][c] = {"exit": q.returncode, "violations": keys[:12], "n_violations": len(keys),
-                              "broken": [l for l in q.stdout.splitlines() if l.startswith("ANALYSIS-BROKEN")][:2]}
-    finally:
-        shutil.rmtree(tmp, ignore_errors=True)
-        # the scratch tree's facts cache is of no further use
-    return res
+sys.path.insert(0, VERIF)
+from verif.selftest import claimed, run_seed  # noqa: E402
 
 
 def main(argv):
@@ -107,6 +72,8 @@ def main(argv):
             st = "SKIPPED (%s)" % r["skipped"]
         elif own is None:
             st = "property not claimed"
+        elif r.get("expect") == "undetected":
+            st = "documented miss (no rule covers it)" if own["exit"] == 0 else "now DETECTED: %s" % own["violations"][:2]
         elif r.get("expect") == "silent":
             if own["exit"] == 0:
                 st = "SILENT as expected (the property holds with this change)"
